@@ -11,6 +11,9 @@ from drivers import vclock as V
 DEFAULT_T = 2.0
 SLACK = 0.25          # virtual seconds of bounded overhead the oracle allows
 PATTERNS = ['silence', 'trickle', 'burst_before', 'burst_after', 'match_mid', 'exit_mid', 'immediate', 'trickle_then_match']
+# the same child behaviours while the parent handles a signal every 0.2371 virtual seconds (handler: 3 ms), the waits failing with EINTR
+SIG_PATTERNS = ['silence+sig', 'trickle+sig', 'burst_before+sig', 'burst_after+sig', 'match_mid+sig']
+SIG_EVERY, SIG_COST = 0.2371, 0.003
 TRANSPORTS = ['pty-select', 'pty-poll', 'fd-select', 'fd-poll', 'socket', 'socket-own', 'popen']     # socket-own: the socket carries its own 0.25 s timeout
 ENTRIES = ['expect', 'expect_exact', 'expect_list', 'expect_loop', 'read_nonblocking']
 TS = [-1, None, 0, 2.0, 0.7]
@@ -66,6 +69,7 @@ class PopenPeer(object):
 def arrivals_for(pattern, Teff, write, finish):
     """list of (dt, action); Teff = the deadline the call will use (None -> 2.0 for placement)"""
     D = 2.0 if Teff is None else Teff
+    pattern = pattern.split('+')[0]
     if pattern == 'silence':
         return []
     if pattern == 'trickle':
@@ -135,6 +139,9 @@ def scenario(transport, entry, Targ, pattern, rng=None):
         reads = []
         V.instrument_reads(p, clk, reads)
         clk.schedule(arrivals_for(pattern, Teff, write, finish))
+        if pattern.endswith('+sig'):
+            clk.interrupts = [clk.now + SIG_EVERY * k + 0.00007 for k in range(1, 200)]
+            clk.handler_cost = SIG_COST
         pat = b'MATCH'
         with V.Install(clk, transport, p=p, ctl=ctl):
             start = clk.now
@@ -180,6 +187,8 @@ def scenario(transport, entry, Targ, pattern, rng=None):
     contract = None
     size = getattr(p, 'maxread', 2000) if entry != 'read_nonblocking' else 100
     over = (2 * size + 5) * clk.tick + 1e-9
+    if pattern.endswith('+sig'):
+        over += SIG_COST + 4 * clk.tick       # Rt.selII_contract: a wait that is interrupted returns within its timeout + one handler run
     for (t0, t1, kind, n, tmo) in reads:
         tm = p.timeout if tmo == -1 else tmo
         if tm is None:
@@ -201,7 +210,7 @@ def scenario(transport, entry, Targ, pattern, rng=None):
             evs.append((us(nxt) - us(r[0]), kind))
     s_eff = start + (clk.tick if Teff is not None else 0.0)      # `end_time = time.time() + timeout` reads the clock once
     d0 = (us(reads[0][0]) if reads else us(finish_t)) - us(s_eff)
-    return dict(outcome=outcome, elapsed=finish_t - start, T=Teff, events=evs, d0=max(0, d0), start=us(s_eff), finish=us(finish_t),
+    return dict(eintr=clk.eintr, outcome=outcome, elapsed=finish_t - start, T=Teff, events=evs, d0=max(0, d0), start=us(s_eff), finish=us(finish_t),
                 hit0=(outcome == 'hit' and not reads), nreads=len(reads), contract=contract)
 
 
@@ -219,6 +228,7 @@ def oracle(transport, entry, Targ, pattern, r):
     else:
         if out == 'timeout':
             return 'TIMEOUT reported with timeout=None'
+    pattern = pattern.split('+')[0]
     if entry != 'read_nonblocking':
         if pattern == 'immediate' and out != 'hit':
             return 'text that was already readable was not examined (timeout %s): %s' % (Teff, out)
@@ -249,15 +259,24 @@ def stage_virtual(ctx, stats, sigs):
                     if tr == 'popen' and Ta is None and en == 'read_nonblocking':
                         continue           # PopenSpawn.read_nonblocking never blocks
                     combos.append((tr, en, Ta, pa))
+    sig_combos = []
+    for tr in ('pty-select', 'pty-poll', 'fd-select', 'fd-poll'):
+        for en in ENTRIES:
+            for Ta in TS:
+                for pa in SIG_PATTERNS:
+                    if Ta is None and pa.split('+')[0] in ('silence', 'trickle', 'burst_before'):
+                        continue
+                    sig_combos.append((tr, en, Ta, pa))
     corpus = [('socket-own', 'expect', None, 'match_mid'), ('socket-own', 'read_nonblocking', None, 'match_mid'), ('socket-own', 'expect_exact', 2.0, 'match_mid'),
               ('pty-select', 'expect', 2.0, 'trickle'), ('socket', 'expect', 0, 'silence'), ('socket', 'expect', 0, 'immediate'),
               ('popen', 'expect', 0, 'immediate'), ('pty-select', 'expect_loop', -1, 'silence'), ('fd-poll', 'expect_list', -1, 'burst_after'),
               ('pty-poll', 'read_nonblocking', 0.7, 'silence'), ('popen', 'expect_exact', 0.7, 'trickle')]
     if ctx.quick():
         rng.shuffle(combos)
-        combos = corpus + combos[:110]
+        rng.shuffle(sig_combos)
+        combos = corpus + combos[:110] + [('pty-select', 'expect', 0.7, 'silence+sig'), ('fd-poll', 'expect_exact', 2.0, 'trickle+sig')] + sig_combos[:40]
     else:
-        combos = corpus + combos
+        combos = corpus + combos + sig_combos
     results = []
     for (tr, en, Ta, pa) in combos:
         r = scenario(tr, en, Ta, pa, rng)
@@ -281,6 +300,83 @@ def stage_virtual(ctx, stats, sigs):
                 ctx.broken.append('correspondence deadline model vs %s %s(timeout=%s) child %s: real (%s, %d) model %s; events %s' % (
                     tr, en, Ta, pa, r['outcome'], r['finish'], mo, r['events'][:8]))
     stats['virtual_scenarios'] = len(results)
+    stats['waits_interrupted_by_signals'] = sum(r.get('eintr', 0) for _, r in results)
+
+
+def stage_wrappers(ctx, stats, sigs):
+    """pexpect.utils.select_ignore_interrupts / poll_ignore_interrupts against Rt.selII: the real wrappers over a pipe, the system call
+    underneath waiting in virtual time and failing with EINTR at scripted moments (times in units of 1/8 s, exact in binary floating point)"""
+    import pexpect.utils as UT
+    rng = ctx.rng
+    U = 0.125
+    cases = [(8, None, 1, [3, 3, 3, 3]), (8, 5, 1, [3, 3]), (8, None, 3, [7]), (0, 0, 1, []), (0, None, 0, [1]), (5, 9, 0, [2, 2, 2, 2, 2]), (6, 6, 2, [3, 3])]
+    for _ in range(300 if ctx.quick() else 6000):
+        cases.append((rng.randrange(0, 41), rng.choice([None, None] + list(range(0, 50))), rng.randrange(0, 6),
+                      [rng.randrange(1, 16) for _ in range(rng.randrange(0, 9))]))
+    lines = ['SI %d %s %d %s' % (T_, 'none' if r is None else r, h, ','.join(map(str, ds)) or '-') for (T_, r, h, ds) in cases]
+    try:
+        mouts = common.run_model(lines)
+    except common.ModelUnavailable as e:
+        ctx.broken.append('model driver unavailable: ' + str(e)[:300]); return
+    saved = (UT.select, UT.time)
+    n = 0
+    try:
+        for which in ('select', 'poll'):
+            for (T_, r, h, ds), mo in zip(cases, mouts):
+                clk = V.VClock(tick=0.0)
+                rfd, wfd = os.pipe()
+                try:
+                    UT.select = V.SelectProxy(clk); UT.time = clk
+                    start = clk.now
+                    if r is not None:
+                        clk.arrivals.append([start + r * U, lambda: os.write(wfd, b'x')])
+                    t, ints = start, []
+                    for d in ds:
+                        t = t + d * U
+                        ints.append(t)
+                        t = t + h * U
+                    clk.interrupts = ints
+                    clk.handler_cost = h * U
+                    clk.horizon = start + 1000
+                    try:
+                        if which == 'select':
+                            res = bool(UT.select_ignore_interrupts([rfd], [], [], T_ * U)[0])
+                        else:
+                            res = bool(UT.poll_ignore_interrupts([rfd], T_ * U))
+                        real = '%s %d' % ('true' if res else 'false', int(round((clk.now - start) / U)))
+                    except V.RanAway:
+                        real = 'still waiting 1000 virtual seconds later'
+                    except Exception as ex:     # noqa
+                        real = 'raises %s' % type(ex).__name__
+                finally:
+                    UT.select, UT.time = saved
+                    os.close(rfd); os.close(wfd)
+                n += 1
+                if real != mo:
+                    # the contract itself (Rt.selII_contract), judged on the real run
+                    msg = None
+                    parts = real.split(' ')
+                    if parts[0] not in ('true', 'false'):
+                        msg = real
+                    else:
+                        fin = int(parts[1])
+                        if fin > T_ + h:
+                            msg = 'returned after %d/8 s: later than the timeout (%d/8 s) plus one handler run (%d/8 s)' % (fin, T_, h)
+                        elif parts[0] == 'false' and fin < T_:
+                            msg = 'reported "nothing ready" after %d/8 s, before the timeout of %d/8 s' % (fin, T_)
+                        elif parts[0] == 'true' and (r is None or r > fin):
+                            msg = 'reported the descriptor ready at %d/8 s; it becomes ready at %s' % (fin, r)
+                    if msg:
+                        common.report(ctx, 'deadline/%s_ignore_interrupts' % which,
+                                      'utils.%s_ignore_interrupts(timeout=%d/8 s), descriptor ready at %s, signals %s after each (re)start, handler %d/8 s: %s' % (which, T_, r, ds, h, msg),
+                                      dict(wrapper=which, timeout_eighths=T_, ready_eighths=r, handler_eighths=h, signal_delays_eighths=ds, real=real, model=mo))
+                    else:
+                        ctx.broken.append('correspondence Rt.selII vs utils.%s_ignore_interrupts on T=%d ready=%s h=%d sigs=%s: real %s model %s' % (which, T_, r, h, ds, real, mo))
+                    break
+    finally:
+        UT.select, UT.time = saved
+    stats['wrapper_runs'] = n
+    sigs.add(('wrappers', n > 0))
 
 
 def stage_hangup(ctx, stats, sigs):
@@ -429,20 +525,21 @@ def run(ctx):
         common.leanchecker(ctx, ['C05'])
     stats, sigs = {}, set()
     stage_virtual(ctx, stats, sigs)
+    stage_wrappers(ctx, stats, sigs)
     stage_hangup(ctx, stats, sigs)
     stage_waitnoecho(ctx, stats, sigs)
     stage_realtime(ctx, stats, sigs)
     ctx.cov.update(stats)
-    n = stats['virtual_scenarios'] + stats['waitnoecho_scenarios'] + stats['realtime_runs'] + 1
+    n = stats['virtual_scenarios'] + stats['waitnoecho_scenarios'] + stats['realtime_runs'] + 1 + stats.get('wrapper_runs', 0)
     return common.finish(
         ctx, 'virtual clock over the real transports: {pty select/poll, fd select/poll, socket, popen} x {expect, expect_exact, expect_list, expect_loop, '
              'read_nonblocking} x T in {-1, None, 0, 0.7, 2.0} x child behaviour {silence, trickle, burst just before / after the deadline, match, exit, '
              'already readable, trickle then match} (quick: corpus + 110 sampled combinations; thorough: all); hang-up without exit; waitnoecho; '
-             'real-time runs with SIGALRM every 50 ms. Each virtual run is also replayed through the Lean clock skeleton (same outcome, same finish '
+             'the same with a signal every 0.2371 s failing the waits with EINTR; the two EINTR-restarting wrappers of utils.py against Rt.selII on random timeouts / ready times / signal schedules; real-time runs with SIGALRM every 50 ms. Each virtual run is also replayed through the Lean clock skeleton (same outcome, same finish '
              'time, transport contract satisfied). distinct = (transport, entry, T, behaviour, outcome)',
         [dict(transport='pty-select', entry='expect', timeout=2.0, pattern='trickle')], n, len(sigs),
         assumptions=['the virtual clock replaces time.time/time.sleep in the pexpect modules and every blocking wait; non-blocking system calls cost one tick',
-                     'PEP 475: select / poll / recv restart after a handled signal inside CPython, so the EINTR branches of utils.py are not reachable',
+                     'PEP 475: CPython restarts select / poll itself after a handled signal, so on a real system the EINTR branches of utils.py run only for handlers that raise InterruptedError; under the virtual clock the system call fails with EINTR at scripted moments, which exercises them (Rt.selII, stage_wrappers and the +sig behaviours)',
                      'overhead allowed by the oracle: 0.25 virtual seconds (+ one 0.1 s sleep for waitnoecho)'])
 
 
